@@ -488,7 +488,7 @@ class Histogram1D(ObjectWithBinning, HistogramBase):
 
     @classmethod
     def _kwargs_from_dict(cls, a_dict: Mapping[str, Any]) -> Dict[str, Any]:
-        kwargs = HistogramBase._kwargs_from_dict(a_dict)  # type: ignore
+        kwargs = super()._kwargs_from_dict(a_dict)
         kwargs["binning"] = kwargs.pop("binnings")[0]
         missed = kwargs.pop("missed", None)
         if missed is not None and len(missed) == 3:
